@@ -300,3 +300,11 @@ package abi
 //@   ensures[ok] err == nil ==> quoteOK(as(q, "*tdx.QuoteV4"))
 //@   ensures[fresh] err == nil ==> quoteFresh(as(q, "*tdx.QuoteV4"))
 //@   ensures[reserialise] err == nil ==> quoteBytes(as(q, "*tdx.QuoteV4")) == seq(b)
+
+// SignatureToDER builds the ASN.1 SEQUENCE { INTEGER r, INTEGER s } with
+// golang.org/x/crypto/cryptobyte; the encoder is trusted (assumed contract).
+//@ func SignatureToDER(x) (r, err)
+//@   trusted
+//@   ensures[iff] err == nil <==> len(x) == 64
+//@   ensures[der] err == nil ==> seq(r) == derSig(seq(x)[0:32], seq(x)[32:64])
+//@   fresh r
